@@ -11,14 +11,14 @@ use crate::sets::{self, C16Case, Container, DynSet, KeyTy, Mode, Prov, Use, MODE
 use serde_json::{json, Value};
 use std::collections::{BTreeMap, BTreeSet};
 
-const SK_PROVS: [Prov; 10] = [
+const SK_PROVS: [Prov; 11] = [
     Prov::KeygenSeed, Prov::KeygenRng, Prov::KeygenOs, Prov::FromBytes, Prov::CloneOf, Prov::CloneOfFromBytes,
-    Prov::FromBytesZeroPrefix, Prov::FromBytesLostZero, Prov::FromBytesBitRot, Prov::FromBytesZeroBlock,
+    Prov::FromBytesZeroPrefix, Prov::FromBytesLostZero, Prov::FromBytesBitRot, Prov::FromBytesZeroBlock, Prov::FromBytesTornOverZero,
 ];
-const PK_PROVS: [Prov; 13] = [
+const PK_PROVS: [Prov; 14] = [
     Prov::KeygenSeed, Prov::KeygenRng, Prov::KeygenOs, Prov::FromBytes, Prov::CloneOf, Prov::CloneOfFromBytes,
     Prov::Derived, Prov::DerivedFromRoundTripped,
-    Prov::FromBytesZeroPrefix, Prov::FromBytesLostZero, Prov::FromBytesLostFF, Prov::FromBytesBitRot, Prov::FromBytesZeroBlock,
+    Prov::FromBytesZeroPrefix, Prov::FromBytesLostZero, Prov::FromBytesLostFF, Prov::FromBytesBitRot, Prov::FromBytesZeroBlock, Prov::FromBytesTornOverZero,
 ];
 const CONTAINERS: [Container; 5] = [Container::Bare, Container::Tuple, Container::OptionSome, Container::ResultOk, Container::Array2];
 
@@ -169,6 +169,22 @@ pub fn run(ctx: &Ctx) -> i32 {
                 if reduced && !matches!((ty, *prov), (KeyTy::Sk, Prov::KeygenSeed) | (KeyTy::Pk, Prov::Derived)) {
                     continue;
                 }
+                if *prov == Prov::FromBytesTornOverZero {
+                    // crash-point enumeration: the write of the stored artefact onto a zero-filled medium is
+                    // torn after every possible byte count k; the key that loads is destroyed unused
+                    if cfg!(miri) {
+                        continue;
+                    }
+                    let len = if ty == KeyTy::Sk { set.info().sk_len } else { set.info().pk_len };
+                    let mut p = Prng::for_run(ctx.seed, &format!("c16-{}-{ty:?}-torn", set.info().name), 0);
+                    let seed = p.array32();
+                    for k in 1..len {
+                        let mut stream = vec![0u8; 64];
+                        stream[2..4].copy_from_slice(&(k as u16).to_le_bytes());
+                        cases.push((si, C16Case { ty, prov: *prov, uses: Vec::new(), container: Container::Bare, seed, stream, msg: Vec::new(), ctx: Vec::new() }));
+                    }
+                    continue;
+                }
                 for cont in CONTAINERS {
                     if reduced && ty == KeyTy::Pk && cont != Container::Bare {
                         continue;
@@ -265,7 +281,7 @@ pub fn run(ctx: &Ctx) -> i32 {
         level: "exploration",
         evaluations: evals,
         signatures: sigs.into_iter().collect(),
-        rule: "Exhaustive matrix (set x key type x provenance {keygen_from_seed, try_keygen_with_rng, try_keygen (OS seam), try_from_bytes, clone, clone of deserialised, get_public_key, get_public_key of round-tripped, and keys loaded from a FAULTED store: first 32 bytes never written (zero), artefact lost (all 0x00 / all 0xFF), one aligned 32/64/128-byte block never written (zero), seeded bit rot} x container {bare, (pk,sk) tuple, Option, Result<(pk,sk),_>, [key;2]}) times seeded use histories of 0..5 events (sign in four modes, a signing attempt during which the RNG device fails, verify good/bad, serialise, derive). The object is destroyed in place (ptr::drop_in_place) in a simulator-owned slot and every byte of each key window is read back with volatile reads. A case is distinct by (set, type, provenance, container, kinds of use); it is non-trivial only if, immediately before the drop, the window contained the key's rho and at least 25% non-zero bytes (otherwise the run aborts as a harness error).".into(),
+        rule: "Exhaustive matrix (set x key type x provenance {keygen_from_seed, try_keygen_with_rng, try_keygen (OS seam), try_from_bytes, clone, clone of deserialised, get_public_key, get_public_key of round-tripped, and keys loaded from a FAULTED store: first 32 bytes never written (zero), artefact lost (all 0x00 / all 0xFF), one aligned 32/64/128-byte block never written (zero), seeded bit rot} x container {bare, (pk,sk) tuple, Option, Result<(pk,sk),_>, [key;2]}) times seeded use histories of 0..5 events (sign in four modes, a signing attempt during which the RNG device fails, verify good/bad, serialise, derive); plus crash-point enumeration: for one key pair per set, the write of the serialised key onto a zero-filled medium torn after EVERY byte count k (first k bytes new, rest zero), the key that loads destroyed unused (bare). The object is destroyed in place (ptr::drop_in_place) in a simulator-owned slot and every byte of each key window is read back with volatile reads. A case is distinct by (set, type, provenance, container, kinds of use); it is non-trivial only if, immediately before the drop, the window contained the key's rho and at least 25% non-zero bytes (otherwise the run aborts as a harness error).".into(),
         samples,
         exhaustive: false,
         extra: json!({
